@@ -71,8 +71,10 @@ Load(dst) == \E n \in Shapes : \E Y \in PalOf(n) :
 LoadNum(dst) == \E c \in Nums :
    /\ reg' = [reg EXCEPT ![dst] = Numv(c)]
    /\ hist' = Append(hist, [op |-> "num", dst |-> dst, c |-> c, exp |-> Numv(c)])
+Small(x) == IF IsTT(x) THEN \A p \in 1..Len(x.t) : x.t[p] \in -3000..3000 ELSE IF IsNum(x) THEN x.c \in -3000..3000 ELSE TRUE
 BinOp(op, a, b, dst) ==
    /\ reg[a].kind # "none" /\ reg[b].kind # "none"
+   /\ Small(reg[a]) /\ Small(reg[b])            \* products stay far from 2^31 (TLC) and 2^53 (floats)
    /\ (IsTT(reg[a]) /\ IsTT(reg[b]) => reg[a].n = reg[b].n)
    /\ LET r == Bin(op, reg[a], reg[b])
       IN /\ (IsTT(r) => \A p \in 1..Len(r.t) : r.t[p] \in -100000..100000)   \* stay far from 2^31 and 2^53
@@ -80,6 +82,7 @@ BinOp(op, a, b, dst) ==
          /\ hist' = Append(hist, [op |-> op, a |-> a, b |-> b, dst |-> dst, exp |-> r])
 OuterOp(a, b, dst) ==
    /\ IsTT(reg[a]) /\ IsTT(reg[b]) /\ Len(reg[a].n) + Len(reg[b].n) <= 4
+   /\ Small(reg[a]) /\ Small(reg[b])
    /\ LET r == [kind |-> "tt", n |-> reg[a].n \o reg[b].n, t |-> DOuter(reg[a].t, reg[b].t)]
       IN /\ \A p \in 1..Len(r.t) : r.t[p] \in -100000..100000
          /\ reg' = [reg EXCEPT ![dst] = r]
